@@ -1710,6 +1710,49 @@ fn gen_c14(lvl: u8) -> Vec<Scenario> {
             out.push(ring(len, &vec![EdgeHook::Handler; len], &ks, format!("c14-{n}-ring{len}-{ks:?}")));
         }
     }
+    // two rings one after the other in the same process (t=0 and t=20): the second cycle is detected like the first
+    for kind in [EdgeKind::Ask, EdgeKind::Erased] {
+        let mut ids = Ids(0);
+        let mut clients = Vec::new();
+        for (base, delay) in [(0usize, 0u32), (2, 20)] {
+            for i in 0..2usize {
+                let to = base + (i + 1) % 2;
+                let mut plain = MsgSpec::quick(ids.next());
+                plain.entry_yield = false;
+                let go = MsgSpec::m1(ids.next()).steps(ask_steps(kind, to, plain));
+                let mut steps = Vec::new();
+                if delay > 0 {
+                    steps.push(Step::Sleep(delay));
+                }
+                steps.push(send(SendKind::Tell, 0, go));
+                clients.push(Program::new(vec![(0, base + i)], steps));
+            }
+        }
+        n += 1;
+        let mut s = scn(format!("c14-{n}-two-rings-in-a-row-{kind:?}"), (0..4).map(|_| ActorSpec::plain(2)).collect(), clients, &["quiet"]);
+        s.registry = true;
+        out.push(s);
+    }
+    // a nested 2-cycle (A0 asks A1, whose handler asks A0) while a third actor's ask to A1 comes and goes
+    for kind in [EdgeKind::Ask, EdgeKind::AskTO] {
+        for slow_bystander in [false, true] {
+            let mut ids = Ids(0);
+            let closing = MsgSpec::m1(ids.next());
+            let mid = MsgSpec::m1(ids.next()).steps(ask_steps(EdgeKind::Ask, 0, closing));
+            let start = MsgSpec::m1(ids.next()).steps(ask_steps(EdgeKind::Ask, 1, mid));
+            let mut side = MsgSpec::m1(ids.next());
+            if slow_bystander {
+                side = side.steps(vec![Step::Yield, Step::Yield]);
+            }
+            let from_x = MsgSpec::m1(ids.next()).steps(ask_steps(kind, 1, side));
+            let c0 = Program::new(vec![(0, 0)], vec![send(SendKind::Tell, 0, start)]);
+            let c1 = Program::new(vec![(0, 2)], vec![send(SendKind::Tell, 0, from_x)]);
+            n += 1;
+            let mut s = scn(format!("c14-{n}-chain2-with-bystander-asker-{kind:?}-slow{slow_bystander}"), (0..3).map(|_| ActorSpec::plain(3)).collect(), vec![c0, c1], &["quiet"]);
+            s.registry = true;
+            out.push(s);
+        }
+    }
     // an ask that timed out while still queued, a retry to the same callee, and then the callee asks back:
     // the late answer to the abandoned ask must not hide the edge of the retry
     for flavour in 0..2 {
